@@ -148,9 +148,12 @@ theorem fileStep_dirs (cfg : Cfg) (W : World C) (dn : Sched) (P : PassI C σ) (f
       · exact h
       · have hy : DirOK cfg (LRes.st' (newLoop cfg W dn P k fuel rid x (x.disk.getD k default))).side := by
           unfold newLoop
+          have hr : DirOK cfg (fmtStep W P x k (x.disk.getD k default)).1.side := by rw [fmtStep_side]; exact h
           split
-          · exact h
-          · exact fileLoop_dirs cfg W dn P k _ fuel rid _ 0 x h
+          · exact hr
+          · split
+            · exact hr
+            · exact fileLoop_dirs cfg W dn P k _ fuel rid _ 0 _ hr
         generalize newLoop cfg W dn P k fuel rid x (x.disk.getD k default) = r at hy ⊢
         rcases r with ⟨y, rid'⟩ | ⟨e, y⟩
         · simp only [LRes.st'] at hy
